@@ -240,10 +240,12 @@ class IASolverBaseClass:  # pylint: disable=R0902
         if F is None and full_F is None:
             raise RuntimeError("Either 'F' or 'full_F' must be provided.")
 
-        self._clear_precoder_filter()
-
         if P is not None:
-            self._P = P
+            # Through the property: the value is validated (before anything
+            # is changed) and a scalar becomes a vector, as everywhere else
+            self.P = P
+
+        self._clear_precoder_filter()
 
         self._full_F = full_F
 
